@@ -221,14 +221,33 @@ pub fn concurrent_attempts(input: &Value) -> Value {
 				}),
 			});
 		}
+		// "never returned" must mean stuck, not slow: the wait ends when every attempt has returned, or
+		// when NOTHING has happened (no attempt returned, no lock event logged) for `timeout_ms`, or after
+		// `max_ms` in all
+		let max = Duration::from_millis(input["max_ms"].as_u64().unwrap_or(600_000));
+		let started = std::time::Instant::now();
 		let mut results = vec![];
-		let all = tokio::time::timeout(overall, async {
-			while let Some((i, r)) = futs.next().await {
-				results.push(json!({"task": i, "ok": r.is_ok(), "error": r.err()}));
+		let mut seen = traced::event_count();
+		let mut all = false;
+		loop {
+			match tokio::time::timeout(overall, futs.next()).await {
+				Ok(Some((i, r))) => results.push(json!({"task": i, "ok": r.is_ok(), "error": r.err()})),
+				Ok(None) => {
+					all = true;
+					break;
+				}
+				Err(_) => {
+					let now = traced::event_count();
+					if now == seen || started.elapsed() > max {
+						break;
+					}
+					seen = now;
+				}
 			}
-		})
-		.await
-		.is_ok();
+			if started.elapsed() > max {
+				break;
+			}
+		}
 		traced::enable(false);
 		drop(futs);
 		let events: Vec<Value> = traced::take_events()
